@@ -504,7 +504,7 @@ def next_psuedo_matches(state: TokenizerState) -> TokenInfo | None:
         elif token in ")]}":
             if state.in_braces() and state.at_parenlev():
                 state.pop_mode((state.lnum, end))
-            state.parenlev -= 1
+            state.parenlev = max(state.parenlev - 1, 0)  # an unmatched closer must not open a "negative" bracket
         elif token == ":" and state.in_braces() and state.at_parenlev():
             state.add_prog(start + 1, end, mode=ModeInColon(state.parenlev), pattern=choice(RBrace=EndRBrace))
         token_type = Token.OP
